@@ -140,6 +140,14 @@ theorem HoldsList.mono {ctx : Ctx κ} {s s1 : Store κ} (hle : Store.le ctx s s1
     exact ⟨HoldsNode.mono hle n _ nm h.1, HoldsList.mono hle r ch h.2⟩
 end
 
+/-- the children of a listing with valid names are accepted by `readManifest` -/
+theorem childrenOK_childrenAs {ctx : Ctx κ} (ch : Choice) : ∀ {es : List (Name × Node κ)},
+    NamesOKList ctx es → ChildrenOK (childrenAs ctx ch es)
+  | [], _ => by simpa [childrenAs] using ChildrenOK.nil
+  | (_, _) :: _, h => by
+    simp only [childrenAs]
+    exact ChildrenOK.cons (namesOK_head_entry h) (childrenOK_childrenAs ch (namesOK_tail h))
+
 /-- the manifest of a held directory reads back as its children -/
 theorem readManifest_holds {ctx : Ctx κ} (g : Good ctx) {s : Store κ} {ch : Choice} {nm : Bytes}
     {es : List (Name × Node κ)} (hs : sortedList es = true) (hn : NamesOKList ctx es)
@@ -149,9 +157,12 @@ theorem readManifest_holds {ctx : Ctx κ} (g : Good ctx) {s : Store κ} {ch : Ch
   simp only [HoldsNode] at h
   obtain ⟨⟨o, ho, hb⟩, _⟩ := h
   refine ⟨Store.has_of_get ho, ?_⟩
-  rw [readManifest_of_bytes g ho hb, sortChildren_childrenAs ctx ch es hs]
-  rw [map_reload_childrenAs ctx ch _ es
-    (fun e he sum isDir => (hn e.1 (mem_allNamesList_of_mem he)).2 _ sum isDir)]
+  have hmap := map_reload_childrenAs ctx ch (ch []) es
+    (fun e he sum isDir => (hn e.1 (mem_allNamesList_of_mem he)).2.1 _ sum isDir)
+  rw [sortChildren_childrenAs ctx ch es hs] at hb
+  have hok : ChildrenOK ((childrenAs ctx ch es).map (ctx.reload (ch []))) := by
+    rw [hmap]; exact childrenOK_childrenAs ch hn
+  rw [readManifest_of_bytes g ho hb hok, hmap]
 
 theorem hasSum_digestAs_dir {ctx : Ctx κ} (g : Good ctx) (ch : Choice) (nm : Bytes)
     (es : List (Name × Node κ)) : hasSum (digestAs ctx ch nm (.dir es)) = true := by
